@@ -11,6 +11,7 @@ NOTES = ("Every verdict comes from a trace recorded from the real code and valid
 DP_NOTE = ("Fake plugins on in-process rendezvous streams replace gRPC plugins; the recording store defines durable = "
            "Commit returned nil; eager persister so that an early engine ack is visible at the plugin; bounded "
            "scopes (<= 2 sources, <= 3 destinations, <= 6 records, <= 2 processors) - small-scope hypothesis.")
+BATCH_NOTE = (" The v2 batch type (funnel.Batch) is additionally checked as a kernel: BatchKernel.tla is model-checked by TLC and every exported operation sequence (Filter/Ack/Nack/Retry/SetRecords/SplitRecord/sub/clone; exhaustive over small batches and over the Filter/SetRecords hole patterns of 5..9 records, sampled beyond) is replayed on the real type and compared slot by slot.")
 CHECKS = {
  "C01": {"text": "TLC model-checks the Layer-A data-path model (consistency + progress); TLC-generated, exhaustively "
                  "explored and seeded-random environment schedules are replayed on the real v1 and v2 engines and "
@@ -23,7 +24,7 @@ CHECKS = {
  "C05": {"text": "As C01 with the recorded invariants DestOrder / NoDupWrite / WriteDerived evaluated at every "
                  "destination write (per-source order strictly increasing, nothing twice per run, nothing that was "
                  "filtered).",
-         "note": DP_NOTE, "technique": "TLA+ model checking (TLC) + TLC trace validation of real-engine traces"},
+         "note": DP_NOTE + BATCH_NOTE, "technique": "TLA+ model checking (TLC) + TLC trace validation of real-engine traces"},
 }
 CHECKS["C02"] = {
  "text": "TLC model-checks the persister/ack-delivery mechanism spec SourcePersist.tla exhaustively (2 connectors sharing "
@@ -65,7 +66,7 @@ CHECKS["C08"] = {
          "destination level, with/without fan-out, short results, and the observed outcome of every record is compared; "
          "TLC additionally validates each trace (ExactlyOne, NoEarlyAck over split pieces, DlqOnce, DlqOriginal, "
          "WriteDerived, PositionImmutable, AckPrefix).",
- "note": DP_NOTE, "technique": "TLC-enumerated case space replayed on the real engine + TLC trace validation"}
+ "note": DP_NOTE + BATCH_NOTE, "technique": "TLC-enumerated case space replayed on the real engine + TLC trace validation"}
 CHECKS["C09"] = {
  "text": "Both real engines are fed one ill-formed plugin reply per scenario (28 shape classes: processors returning "
          "fewer/zero/more results, unknown types, changed/empty positions; destinations answering with empty, surplus, "
